@@ -378,6 +378,14 @@ func TestRegress(t *testing.T) {
 }
 
 func TestReplay(t *testing.T) {
+	if stats.ReplayStage() == "parallel" {
+		var pc PCase
+		if _, err := stats.LoadReplay(&pc); err != nil {
+			t.Fatal(err)
+		}
+		stats.Record(t, pc, RunPCase(pc))
+		return
+	}
 	var c Case
 	ok, err := stats.LoadReplay(&c)
 	if !ok {
